@@ -29,7 +29,8 @@ Shapes == {"absent", "empty", "ws", "int", "str", "enumStr", "ints", "twice", "n
            "known", "knownTwice", "knownThenX",     \* content that binds to a class the context knows by its qualified name
            "mixedTokens",                           \* a token list with one unconvertible token: <x>1 a 3</x>
            "clarkBroken", "xsiClarkBroken", "clark",
-           "leafThenText", "textLeafText"}           \* character data after / around a complex child (only mixed content can hold it) \* names in {uri}local notation, whole and cut short (text and xsi:type)
+           "leafThenText", "textLeafText",
+           "xsiHexBad", "xsiIntBad"}                  \* an xsi:type naming a built-in type, with text outside its lexical space           \* character data after / around a complex child (only mixed content can hold it) \* names in {uri}local notation, whole and cut short (text and xsi:type)
 
 Positions == {"root", "nested", "repeated"}
 
@@ -70,6 +71,8 @@ Unconvertible(k, s) ==
     [] k \in {"tokens", "tokenLists"}                          -> s \in {"str", "enumStr", "mixedTokens"}
     [] k = "enum"                                               -> s \in {"str", "int", "ints"}
     [] k = "attrInt"                                            -> s \in {"parentAttrBad"}
+    \* the declared type is anyType / a wildcard, the ANNOUNCED type (xsi:type) is what the text cannot be converted to
+    [] k \in {"anyType", "wildcardList", "wildcardOne"}          -> s \in {"xsiHexBad", "xsiIntBad"}
     [] OTHER                                                    -> FALSE
 
 TableSane == /\ \A k \in Kinds, s \in Shapes : ~(Canonical(k, s) /\ Unconvertible(k, s))
